@@ -315,19 +315,24 @@ func runWire(dir string, seed uint64, tier string) {
 		var m datatransfer.Message
 		var err error
 		kind := r.intn(13)
+		// the flags handed to the constructor, to be read back from the decoded message
+		var wantAcc, wantPause, wantPull, wantRestart *bool
+		flag := func(dst **bool) bool { b := r.chance(50); *dst = &b; return b }
 		switch kind {
 		case 0, 1:
 			v := mkV()
 			for v == nil {
 				v = mkV()
 			}
-			m, err = message.NewRequest(tid, kind == 1, r.chance(50), v, randCid(r), randTopNode(r))
+			isR := kind == 1
+			wantRestart = &isR
+			m, err = message.NewRequest(tid, kind == 1, flag(&wantPull), v, randCid(r), randTopNode(r))
 		case 2:
 			m = message.RestartExistingChannelRequest(datatransfer.ChannelID{Initiator: peers6[r.intn(4)], Responder: peers6[r.intn(4)], ID: tid})
 		case 3:
 			m = message.CancelRequest(tid)
 		case 4:
-			m = message.UpdateRequest(tid, r.chance(50))
+			m = message.UpdateRequest(tid, flag(&wantPause))
 		case 5:
 			v := mkV()
 			for v == nil {
@@ -335,17 +340,17 @@ func runWire(dir string, seed uint64, tier string) {
 			}
 			m, err = message.VoucherRequest(tid, v)
 		case 6:
-			m, err = message.RestartResponse(tid, r.chance(50), r.chance(50), mkV())
+			m, err = message.RestartResponse(tid, flag(&wantAcc), flag(&wantPause), mkV())
 		case 7:
-			m, err = message.NewResponse(tid, r.chance(50), r.chance(50), mkV())
+			m, err = message.NewResponse(tid, flag(&wantAcc), flag(&wantPause), mkV())
 		case 8:
-			m, err = message.VoucherResultResponse(tid, r.chance(50), r.chance(50), mkV())
+			m, err = message.VoucherResultResponse(tid, flag(&wantAcc), flag(&wantPause), mkV())
 		case 9:
-			m = message.UpdateResponse(tid, r.chance(50))
+			m = message.UpdateResponse(tid, flag(&wantPause))
 		case 10:
 			m = message.CancelResponse(tid)
 		case 11:
-			m, err = message.CompleteResponse(tid, r.chance(50), r.chance(50), mkV())
+			m, err = message.CompleteResponse(tid, flag(&wantAcc), flag(&wantPause), mkV())
 		default:
 			// a validation response reports acceptance precisely when validation succeeded and accepted
 			vr := datatransfer.ValidationResult{Accepted: r.chance(50), VoucherResult: mkV(), ForcePause: r.chance(30)}
@@ -422,6 +427,30 @@ func runWire(dir string, seed uint64, tier string) {
 				} else if verr == nil && !present(v) {
 					fail(id, "absent-voucher-reported-present", "a response that carries no voucher result yields a nil / null result WITHOUT an error from VoucherResult()", label, nil, nil)
 				}
+			}
+		}
+		// the flags given to the constructor survive the wire intact, each on its own
+		{
+			type flagged interface{ IsPaused() bool }
+			bad := ""
+			if wantPause != nil {
+				if f, ok := dec.(flagged); !ok || f.IsPaused() != *wantPause {
+					bad += fmt.Sprintf(" paused(want %v)", *wantPause)
+				}
+			}
+			if ds, ok := dec.(datatransfer.Response); ok && wantAcc != nil && ds.Accepted() != *wantAcc {
+				bad += fmt.Sprintf(" accepted(want %v)", *wantAcc)
+			}
+			if dq, ok := dec.(datatransfer.Request); ok {
+				if wantPull != nil && dq.IsPull() != *wantPull {
+					bad += fmt.Sprintf(" pull(want %v)", *wantPull)
+				}
+				if wantRestart != nil && dq.IsRestart() != *wantRestart {
+					bad += fmt.Sprintf(" restart(want %v)", *wantRestart)
+				}
+			}
+			if bad != "" {
+				fail(id, "flag-changed-on-the-wire", "a flag handed to the message constructor reads differently after ToNet / FromNet:"+bad, label, nil, nil)
 			}
 		}
 		if dec.IsRequest() != m.IsRequest() || dec.TransferID() != m.TransferID() {
